@@ -2038,6 +2038,14 @@ func (c *Ctx) implementsTerm(x string, it *types.Interface) string {
 			alts = append(alts, fmt.Sprintf("(= (itag %s) %s)", x, c.typeTag(types.NewPointer(t))))
 		}
 	}
+	if len(alts) == 0 {
+		// no implementer inside the repository (the interface is there to probe readers from
+		// outside, e.g. `interface{ Len() int }` for *bytes.Buffer): open world — an uninterpreted
+		// predicate of the dynamic type, the same for every occurrence of this interface
+		name := "impl_" + sanitize(it.String())
+		c.declOnce("impl:"+name, fmt.Sprintf("(declare-fun %s (Int) Bool)\n(assert (not (%s 0)))", name, name))
+		return fmt.Sprintf("(%s (itag %s))", name, x)
+	}
 	c.assumed["closed world: dynamic types implementing "+it.String()+" are those declared in the repository"] = true
 	return or(alts...)
 }
